@@ -2,7 +2,7 @@
 import numpy as np
 import gen
 import spec
-from props.common import load_impl, exc_name
+from props.common import load_impl, exc_name, rand_keys, UView
 
 RULE = ("random edit histories (<=12 ops quick, <=40 thorough) of item assignment (incl. negative indices), insert (negative / past-the-end), "
         "append, extend, delete, pop, slice delete, slicing, reverse over formulas of mixed widths, executed on the real Provenance, on a plain "
@@ -21,7 +21,9 @@ def widths(e):
 
 def run_history(ctx, I, n_units, init, ops):
     P = I["provenance"]
-    units = P.Units(units=n_units, candidates=2)
+    import random as _r
+    keys, _scheme = rand_keys(_r.Random(hash(str(init)) & 0xffff), n_units)
+    units = UView(P.Units(units=list(keys), candidates=2), keys)
     prov = P.Provenance([gen.build_expr(P, units, e) for e in init])
     ref = list(init)
     asg = spec.assignments(n_units)
